@@ -250,6 +250,26 @@ func Programs() []*Program {
 		Single(&Pipeline{Source: *id("T"), Ops: []Op{&Where{Kw: "where", Pred: eq1(idx("m", "a"))}, &Extend{Cols: []Column{{Name: id("z"), X: idx("n", "b")}}}, &Sort{Kw: "sort", Terms: []SortTerm{{X: idx("p", "c")}}}, &Summarize{Cols: []Column{{Name: id("u"), X: call("max", idx("q", "d"))}}, By: []Column{{Name: id("v"), X: idx("r", "e")}}, HasBy: true}}}),
 		&Program{Stmts: []Stmt{&Pipeline{Source: *id("T"), Ops: []Op{&Where{Kw: "where", Pred: eq1(idx("m", "a"))}}}, &Pipeline{Source: *id("U"), Ops: []Op{&Where{Kw: "where", Pred: eq1(idx("n", "b"))}}}}},
 	)
+	// every kind of operator inside a join's right-hand side, first, in the middle and last
+	for _, op := range reps {
+		if _, isJoin := op.(*Join); isJoin {
+			continue
+		}
+		w := &Where{Kw: "where", Pred: &Binary{Op: ">", X: Col("x"), Y: NumLit("1", "1")}}
+		pr := &Project{Cols: []Column{{Name: id("k")}, {Name: id("x")}}}
+		for _, ops := range [][]Op{{op, w, pr}, {w, op, pr}, {w, pr, op}} {
+			out = append(out, Single(&Pipeline{Source: *id("A"), Ops: []Op{&Join{Right: &Pipeline{Source: *id("B"), Ops: ops}, On: []Expr{Col("k")}}, &Count{}}}))
+		}
+	}
+	// render with the chart types and property vocabulary of the query language it is modelled on
+	for ci, chart := range []string{"barchart", "areachart", "columnchart", "timechart", "piechart", "table", "linechart"} {
+		props := [][2]string{{"kind", "stacked"}, {"kind", "unstacked"}, {"kind", "stacked100"}, {"legend", "hidden"}, {"legend", "visible"}, {"ysplit", "panels"}, {"ysplit", "axes"}, {"ysplit", "none"},
+			{"xaxis", "log"}, {"yaxis", "linear"}, {"accumulate", "true"}, {"xcolumn", "a"}, {"series", "b"}, {"kind", "mine"}}
+		for pi := ci % 2; pi < len(props); pi += 2 {
+			p1, p2 := props[pi], props[(pi+3)%len(props)]
+			out = append(out, Single(&Pipeline{Source: *id("T"), Ops: []Op{&Render{Chart: *id(chart), With: true, Props: []Prop{{Name: *id(p1[0]), Value: Col(p1[1])}, {Name: *id("title"), Value: StrLit("t")}, {Name: *id(p2[0]), Value: Col(p2[1])}}}}}))
+		}
+	}
 	// lets and empty statements
 	q := &Pipeline{Source: *id("T"), Ops: []Op{&Take{Kw: "take", N: Col("n")}}}
 	lets := []Stmt{
